@@ -30,8 +30,8 @@ MANIFEST = {
     'level_note': 'Trusts CPython datetime arithmetic and the reference model rd_ref (self-tested each run). Float-valued '
                   'fields are outside the model and only counted.',
 }
-PLAN = {'quick': {'shards': 2, 'timeout': 300, 'budget': 45},
-        'thorough': {'shards': 16, 'timeout': 1500, 'budget': 420}}
+PLAN = {'quick': {'shards': 2, 'timeout': 1800, 'budget': 900},
+        'thorough': {'shards': 16, 'timeout': 7200, 'budget': 2400}}
 N_CASES = {'quick': 12000, 'thorough': 120000}     # per shard
 
 YEARS = [1, 2, 4, 5, 100, 400, 1582, 1899, 1900, 1999, 2000, 2003, 2004, 2023, 2024, 2100, 2400, 9996, 9998, 9999]
